@@ -161,6 +161,8 @@ def gen_cases(tier, seed):
         elif r < 0.88:
             cases.append({'kind': 'redirect',
                           'target': rng.choice(['path', 'file', 'pipe',
+                                                'async_file',
+                                                'async_file_wait',
                                                 'devnull', 'process',
                                                 'stdin_bytes', 'stdin_file',
                                                 'stderr_stdout']),
@@ -679,6 +681,47 @@ def _run_redirect(case, mon, viol):
                 await fut
                 os.close(rfd)
                 got = b''.join(parts)
+            elif target in ('async_file', 'async_file_wait'):
+                # aiofiles-style targets: write() is a coroutine and slow.
+                # When run() / wait() hands back the exit status, everything
+                # the command wrote has to be in the targets already.
+                class Slow:
+                    def __init__(self):
+                        self.parts = []
+                        self.closed = False
+
+                    async def write(self, d):
+                        await asyncio.sleep(0.05)
+                        self.parts.append(bytes(d))
+                        return len(d)
+
+                    async def close(self):
+                        self.closed = True
+
+                so, se = Slow(), Slow()
+                if target == 'async_file':
+                    res = await conn.run('x', stdout=so, stderr=se,
+                                         encoding=None)
+                else:
+                    proc = await conn.create_process(
+                        'x', stdout=so, stderr=se, encoding=None)
+                    res = await proc.wait()
+                got = b''.join(so.parts)
+                if b''.join(se.parts) != b'ERR' + data[:5]:
+                    viol.append({
+                        'mechanism': 'redirect_incomplete_at_return',
+                        'detail': f'{target}: stderr target held '
+                                  f'{len(b"".join(se.parts))} of '
+                                  f'{len(data[:5]) + 3} bytes when '
+                                  f'run()/wait() returned status '
+                                  f'{res.exit_status}'})
+                if got != data and data.startswith(got):
+                    viol.append({
+                        'mechanism': 'redirect_incomplete_at_return',
+                        'detail': f'{target}: stdout target held {len(got)} '
+                                  f'of {len(data)} bytes when run()/wait() '
+                                  f'returned status {res.exit_status}'})
+                    got = data
             elif target == 'devnull':
                 res = await conn.run('x', stdout=asyncssh.DEVNULL,
                                      encoding=None)
